@@ -137,6 +137,10 @@ def natDigits : Nat → Nat → List Char
 
 def fmtNat (n : Nat) : Text := natDigits (n + 1) n
 
+/-- canonical digit string: non-empty, digits only, no leading zero unless it is "0" -/
+def canonDigits (ds : List Char) : Bool :=
+  !ds.isEmpty && ds.all isDigit && (ds == ['0'] || ds.head? != some '0')
+
 /-- `i64::to_string` -/
 def fmtInt (k : Int) : Text := if k < 0 then '-' :: fmtNat k.natAbs else fmtNat k.toNat
 
